@@ -161,7 +161,6 @@ def _arm_terms(fi, body, kind, subj, out, base_env, self_name):
                 else:
                     key = "BinaryOp ** general"
                 env[subj] = al.POW(L, "r")
-                env["expr"] = env[subj]
             else:
                 key = f"BinaryOp {op}"
         else:
@@ -170,6 +169,11 @@ def _arm_terms(fi, body, kind, subj, out, base_env, self_name):
             except KeyError:
                 continue
             key = f"UnaryOp {op}"
+        # the function's own first parameter is the ROOT of the tree; in a walker whose dispatch subject is another
+        # name (the iterative one) it does not denote the node being differentiated
+        root = fi.node.args.args[0].arg
+        if root != subj and root not in env:
+            env[root] = al.A("ROOT_OF_THE_WHOLE_TREE")
         tr = Tr(env, symbols)
         for nm, val in assigns:
             if nm in env or nm in ("op", "node_id", "left_id", "right_id", "operand_id", "n", "left", "right", "operand", "d_left", "d_right", "d_operand"):
